@@ -208,7 +208,8 @@ func (ap *accountsParser) checkForDuplicates() error {
 		ia1 := ap.initialAccounts[idx1]
 		for idx2 := idx1 + 1; idx2 < len(ap.initialAccounts); idx2++ {
 			ia2 := ap.initialAccounts[idx2]
-			if ia1.Address == ia2.Address {
+			// compare the decoded addresses: the text encodings are not canonical (letter case)
+			if bytes.Equal(ia1.AddressBytes(), ia2.AddressBytes()) {
 				return fmt.Errorf("%w found for '%s'",
 					genesis.ErrDuplicateAddress,
 					ia1.Address,
